@@ -55,6 +55,28 @@ CHECKS.update({
         'note': 'trusted: oracle parse_number (exact rationals); leading-zero integers may be read as decimal or octal',
         'technique': 'boundary-value generation with an arbitrary-precision reference oracle on real executions, under ASan/UBSan',
     },
+    'C08': {
+        'text': 'Generated definition sets (PBSB/prefix/XOR-fold collisions, wildcards, chains) are loaded by the real CSV loader in three '
+                'insertion orders; every MessageMap::find result for derived/mutated telegrams and flag combinations is compared with a '
+                'linear scan over the definitions as generated (match predicate + longest ID + order independence).',
+        'design_ref': 'DESIGN.md section 2, C08',
+        'note': 'trusted: the linear-scan predicate ref_matches in checks/c08.py; which lines the loader accepted is taken from the loader',
+        'technique': 'differential monitor: real lookup vs linear-scan reference over generated sets and insertion orders, under ASan/UBSan',
+    },
+    'C17': {
+        'text': 'Histories of getNextPoll interleaved with priority changes, front/back insertion, late-loaded messages, removal and reload; '
+                'an online monitor checks the stride-scheduling waiting bound and proportional shares on perturbation-free windows.',
+        'design_ref': 'DESIGN.md section 2, C17',
+        'note': 'trusted: waiting bound and tolerance stated in the evidence assumptions; unbounded fairness replaced by window bounds',
+        'technique': 'online trace monitor (bounded waiting + proportional share) over perturbed poll histories under virtual time, ASan/UBSan',
+    },
+    'C19': {
+        'text': 'splitFields against a reference CSV writer (exhaustive short rows over an adversarial alphabet + random), dumpString round '
+                'trip, and generated definition sets loaded, dumped, reloaded and dumped again with attribute-level comparison.',
+        'design_ref': 'DESIGN.md section 2, C19',
+        'note': 'trusted: reference writer/trim model in checks/c19.py; comparison uses the public dump/getters of both generations',
+        'technique': 'round-trip (load-dump-reload-dump) differential monitor plus exhaustive splitter sweep, under ASan/UBSan',
+    },
     'C10': {
         'text': 'Random field sequences built by the production factory; ownership of bits discovered black-box by encoding one field at a '
                 'time, compared with an independent layout rule; agreement of getLength/usedLength/accepted data size; set decode equals '
